@@ -6,7 +6,7 @@
 From Coq Require Import List ZArith NArith Bool.
 From Coq.Strings Require Import Byte.
 Import ListNotations.
-From SV Require Import Text G_c16 C16_StableSort.
+From SV Require Import Text G_c16 G_c16_ops C16_StableSort.
 
 (* ---------------------------------------------------------------- metadata values *)
 (* a metadata value: None, an int or a str (Latin-1) *)
@@ -129,7 +129,10 @@ Definition elem_ltb (x y : elem) : bool :=
   end.
 
 (* ---------------------------------------------------------------- keys (cane.py:13-25) *)
-Inductive key := KMeta (k : str) | KLen | KDefault.          (* 'name' | len | None *)
+(* 'name' | len | None | callables handed in by the caller (any callable is accepted, cane.py:19-23); the harness uses this
+   closed family: lambda o: -len(o) | lambda o: 0 | lambda o: o.meta.get(k).lower() | lambda o: o.meta.get(k, v) *)
+Inductive key := KMeta (k : str) | KLen | KDefault | KNegLen | KConst | KLowerMeta (k : str) | KMetaOr (k : str) (v : pv)
+  | KLoc | KLocs.     (* lambda ft: ft.loc | lambda ft: ft.locs : Location / LocationTuple objects as group keys (groupby only) *)
 Inductive keyspec := KsStr (s : str) | KsOne (k : key) | KsTuple (l : list key).
 Definition is_ws (c : byte) : bool :=
   match c with x20 | x09 | x0a | x0b | x0c | x0d | x1c | x1d | x1e | x1f | x85 | xa0 => true | _ => false end.
@@ -147,11 +150,27 @@ Definition keyfuncs (ks : keyspec) : list key :=
   | KsOne k => [k]
   | KsTuple l => l
   end.
+(* Location.__eq__ / __hash__ (fts.py:99-110) identify a location by start, stop, strand (defect and location metadata are
+   the defaults on every element of the model); the harness renders such a key as text: strand, then start:stop joined by ',' *)
+Definition enc_loc (l : Z * Z) : str := dec_of_Z (fst l) ++ ":"%byte :: dec_of_Z (snd l).
+Fixpoint enc_locs (l : list (Z * Z)) : str :=
+  match l with
+  | [] => []
+  | [a] => enc_loc a
+  | a :: r => enc_loc a ++ ","%byte :: enc_locs r
+  end.
+Definition strand_ch (x : elem) : byte := if eminus x then "-"%byte else "+"%byte.
 Definition keyval (k : key) (x : elem) : pv :=
   match k with
   | KMeta s => mget s x
   | KLen => PInt (elen x)
   | KDefault => PNone
+  | KNegLen => PInt (- elen x)
+  | KConst => PInt 0
+  | KLowerMeta s => match mget s x with PStr t => PStr (lower t) | v => v end     (* non-str: AttributeError, outside key_dom *)
+  | KMetaOr s v => match assoc s (emeta x) with Some w => w | None => v end
+  | KLoc => PStr (strand_ch x :: match elocs x with a :: _ => enc_loc a | [] => [] end)
+  | KLocs => PStr (strand_ch x :: enc_locs (elocs x))
   end.
 
 (* ---------------------------------------------------------------- _sorted (cane.py:48-64) *)
@@ -190,7 +209,16 @@ Fixpoint rsplit_us (s : str) : option (str * str) :=
       end
   end.
 Inductive fop := OLt | OLe | OEq | ONe | OGe | OGt | OIn | OLowerin | OLowereq | OContains.
+(* the operator table: regenerated on every run by probing cane._filter with every documented operator name
+   (tools/gens/c16.py -> gen/G_c16_ops.v gives name -> number of the semantics it shows); C16_op_table_documented pins it *)
+Definition fop_of_code (n : N) : option fop :=
+  match n with
+  | 0 => Some OLt | 1 => Some OLe | 2 => Some OEq | 3 => Some ONe | 4 => Some OGe | 5 => Some OGt
+  | 6 => Some OIn | 7 => Some OLowerin | 8 => Some OLowereq | 9 => Some OContains | _ => None
+  end%N.
 Definition op_table : list (str * fop) :=
+  flat_map (fun p => match fop_of_code (snd p) with Some o => [(fst p, o)] | None => [] end) filter_op_codes.
+Definition op_table_documented : list (str * fop) :=
   [ (bs "max"%bs, OLe); (bs "min"%bs, OGe); (bs "in"%bs, OIn); (bs "lowerin"%bs, OLowerin); (bs "lowereq"%bs, OLowereq);
     (bs "lt"%bs, OLt); (bs "le"%bs, OLe); (bs "eq"%bs, OEq); (bs "ne"%bs, ONe); (bs "ge"%bs, OGe); (bs "gt"%bs, OGt);
     (bs "contains"%bs, OContains) ].
@@ -396,6 +424,11 @@ Definition attach_new (add : bool) (old g : list elem) : list elem := if add the
 Definition m_attach (add : bool) (seqs : list (pv * list elem)) (fs : list elem) : list (list elem) :=
   fst (attach_loop (attach_new add) (fun old => old) seqs (group1 fs)).
 
+(* BioBasket.fts (getter, seq.py:741-749): the features of all sequences, sequence after sequence *)
+Definition m_basket_fts (ls : list (list elem)) : list elem := concat ls.
+(* BioSeq.add_fts (seq.py:332-341): self.fts = self.fts + FeatureList(fts); self.fts.sort() - every given feature, whatever its seqid *)
+Definition m_seq_add_fts (old fs : list elem) : list elem := default_sort (old ++ fs).
+
 (* ---------------------------------------------------------------- domain *)
 (* names that getattr(meta, name, None) resolves to methods of Attr/Meta/MutableMapping instead of None (open finding
    F20 region: instance __dict__ storage shadows mapping methods, meta.py:46-57) *)
@@ -430,10 +463,20 @@ Definition elem_ok (feat : bool) (x : elem) : bool :=
         && match assoc k_id (emeta x) with Some _ => true | None => false end).
 Definition kind_of (l : list elem) : bool := match l with x :: _ => efeat x | [] => true end.
 Definition elems_ok (l : list elem) : bool := forallb (elem_ok (kind_of l)) l.
-Definition key_ok (k : key) : bool := match k with KMeta s => key_name_ok s | _ => true end.
+Definition key_ok (k : key) : bool :=
+  match k with KMeta s | KLowerMeta s | KMetaOr s _ => key_name_ok s | _ => true end.
+(* the callable lambda o: o.meta.get(k).lower() raises AttributeError on a value that is no str; sorted() and _groupby call
+   the key function on every element, also of a one-element collection *)
+Definition key_dom (objs : list elem) (k : key) : bool :=
+  match k with
+  | KLowerMeta s => forallb (fun x => is_pstr (mget s x)) objs
+  | KLoc | KLocs => forallb efeat objs                 (* a BioSeq has no .loc: AttributeError *)
+  | _ => true
+  end.
+Definition is_lockey (k : key) : bool := match k with KLoc | KLocs => true | _ => false end.
 (* sort key whose values Python can order: all int or all str; default key: Feature.__lt__ / BioSeq.__lt__ *)
 Definition sort_key_ok (objs : list elem) (k : key) : bool :=
-  key_ok k && (Nat.leb (length objs) 1 ||
+  key_ok k && key_dom objs k && negb (is_lockey k) && (Nat.leb (length objs) 1 ||
   match k with
   | KDefault => if kind_of objs then comparable (map (mget k_seqid) objs) || all_eq (map (mget k_seqid) objs)
                 else comparable (map id_or_empty objs)
@@ -467,7 +510,8 @@ Definition wf_C16 (r : req) : bool :=
   match r with
   | RFilter _ objs conds => elems_ok objs && nodup_keys conds && forallb (cond_ok objs) conds
   | RSort objs ks _ => elems_ok objs && forallb (sort_key_ok objs) (keyfuncs ks)
-  | RGroup objs ks => elems_ok objs && forallb key_ok (keyfuncs ks) && is_ok (m_groupby ks objs)
+  | RGroup objs ks => elems_ok objs && forallb key_ok (keyfuncs ks) && forallb (key_dom objs) (keyfuncs ks)
+                      && is_ok (m_groupby ks objs)
   | RSelect fts _ | RGet fts _ => forallb (elem_ok true) fts && forallb type_ok fts
   | RTodict objs => elems_ok objs
   | RSetop code a b => elems_ok (a ++ b) && N.ltb code 12
@@ -626,6 +670,12 @@ Fixpoint spec_tree (kfs : list key) (objs : list elem) : gtree :=
   | k :: kfs' =>
       GNode (map (fun v => (v, spec_tree kfs' (filter (fun x => pv_eqb (keyval k x) v) objs)))
                  (first_occ (map (keyval k) objs)))
+  end.
+(* the groups of a groupby result read off in the order of the nested dicts *)
+Fixpoint leaves (t : gtree) : list elem :=
+  match t with
+  | GLeaf l => l
+  | GNode kids => flat_map (fun kt => leaves (snd kt)) kids
   end.
 (* todict: the last element carrying an id *)
 Definition last_with (k : pv) (objs : list elem) : option elem :=
